@@ -108,7 +108,7 @@ def check(ctx) -> None:
     ctx.rule("C11.min", "the minimum rule reads the accumulator with an `inf` default and the same mapping/key it writes (merge side and recording side)", floor=5)
     ctx.rule("C11.laws", "ABSINT: merge interpreted over representative traces: the argument is left untouched, coverage fields commute and never shrink, assertion positions are shifted by the receiver's instruction count", floor=6)
     _merge_laws(ctx, repo)
-    ctx.rule("C11.fold", "analyze_results starts from a fresh ExecutionTrace, visits every result, and only merges", floor=4)
+    ctx.rule("C11.fold", "analyze_results starts from a fresh ExecutionTrace, visits every result, only merges, and keeps no state between calls", floor=5)
 
     et = repo.cls(TR, "ExecutionTrace")
     fields = [f for f, _a, _v in repo.dataclass_fields(et)]
@@ -200,6 +200,13 @@ def check(ctx) -> None:
     # the accumulator is written by nothing but merge
     others = [n for n in own_nodes(ar) if isinstance(n, ast.Attribute) and norm(n.value) == acc and n.attr != "merge"]
     ctx.check("C11.fold", ar, not others, f"analyze_results touches the accumulator other than by merge: {[norm(o) for o in others][:3]}", what="accumulator only merged", stmt="[only-merge]")
+    # the fold keeps no state between calls: a memo keyed by object identity (id(result)) hands out the merged trace of dead
+    # results once their addresses are reused
+    fmod = repo.module(FM)
+    module_state = {name for name, val in fmod.assigns.items() if isinstance(val, (ast.Dict, ast.List, ast.Set)) or (isinstance(val, ast.Call) and norm(val.func).split(".")[-1] in ("dict", "list", "set", "OrderedDict", "defaultdict", "WeakValueDictionary", "deque", "OrderedSet"))}
+    touched = sorted({n.id for n in own_nodes(ar) if isinstance(n, ast.Name) and n.id in module_state})
+    cached = [d for d in ar.decorator_list if "cache" in norm(d)]
+    ctx.check("C11.fold", ar, not touched and not cached, f"analyze_results keeps merged traces between calls ({touched or [norm(d) for d in cached]}): a key made of object identities or of results that are later changed in place returns the trace of other executions - coverage of a suite is reported from tests it no longer contains, and adding a test can lower it", what="the fold keeps no state between calls", stmt="[stateless]")
     # tracer: fresh traces are seeded by merge of the import trace, never by aliasing it
     it = repo.func(TR, "ExecutionTracer.init_trace")
     ctx.analysed(it)
